@@ -218,7 +218,13 @@ func (w *World) Message(a *app.ShutterApp, op Op) *shmsg.Message {
 		return shmsg.NewPolyEval(w.eon(a, op.A), recv, evals)
 	case "accuse":
 		recv, _ := w.others(a, op)
-		if len(recv) > 1 {
+		switch {
+		case op.B == 2 && len(recv) > 1:
+			// every other keyper, the first one named a second time in between
+			recv = append(append(append([]common.Address{}, recv[:2]...), recv[0]), recv[2:]...)
+		case op.B == 1:
+			// every other keyper
+		case len(recv) > 1:
 			recv = recv[:1]
 		}
 		return shmsg.NewAccusation(w.eon(a, op.A), recv)
